@@ -88,7 +88,10 @@ def run_model(ctx, name, blocks, max_n, classes, switch_in=True, vias=("node", "
         elif c not in ("beyond_last",) or not sample:
             need.append(f"{c}:ev:InvalidBlock")
     missing = [k for k in need if not oc.get(k)]
-    if missing:
+    before = len(ctx.violations)
+    ctx.replay_report(name, rep)
+    if missing and len(ctx.violations) == before:
+        # (walks end at a divergence: with unexplained divergences the outcome histogram says nothing)
         raise ToolError(f"vacuity: {name}: the real store never produced {missing}")
     if not sample and rep["covered"] + rep["div_count"] < rep["edges"]:
         # transitions behind a diverging one are not replayed; everything else must be covered
@@ -97,7 +100,6 @@ def run_model(ctx, name, blocks, max_n, classes, switch_in=True, vias=("node", "
         "groups": blocks, "max_slices": max_n, "classes": len(classes), "scenarios": rep.get("scenarios"),
         "add_shred_calls": rep.get("micro_calls"), "serve_checks": rep.get("serve_checks"),
         "tlc_s": round(r.wall_s, 1)}
-    ctx.replay_report(name, rep)
     try:
         os.remove(r.out_path)
     except OSError:
